@@ -2,12 +2,239 @@
 package main
 
 import (
+	"bytes"
+	"fmt"
 	"os"
 
+	"github.com/linuxboot/fiano/pkg/uefi"
 	. "verifharness/common"
 	"verifharness/uefigen"
 	"verifharness/uefiops"
 )
+
+// ---- p_partition_strict: the field and tiling clauses of C04 for EVERY node, whatever its size.
+// Unlike p_partition (which compares header fields only when the node buffer is long enough) it
+// demands that a node contains its whole header, that all reported header fields are the decode
+// of the node's own bytes, and that sibling windows do not overlap: each child starts at or
+// after the end of the previous child's header (and of the previous child).
+
+func rd(b []byte, off, w int) (uint64, bool) {
+	if off < 0 || off+w > len(b) {
+		return 0, false
+	}
+	var v uint64
+	for i := w - 1; i >= 0; i-- {
+		v = v<<8 | uint64(b[off+i])
+	}
+	return v, true
+}
+
+// size of the common section header as the parser read it
+func secHdrLen(s *uefi.Section) int {
+	if strictKnown(s) && s.Header.Size == [3]uint8{0xFF, 0xFF, 0xFF} {
+		return 8
+	}
+	return 4
+}
+
+func strictSection(s *uefi.Section) string {
+	sb := s.Buf()
+	hl := secHdrLen(s)
+	known := strictKnown(s)
+	if uint64(len(sb)) != uint64(s.Header.ExtendedSize) {
+		return "FAIL strict section-buf-length"
+	}
+	if len(sb) < hl {
+		return fmt.Sprintf("FAIL strict section-shorter-than-header size=%d header=%d", len(sb), hl)
+	}
+	size3, _ := rd(sb, 0, 3)
+	if byte(size3) != s.Header.Size[0] || byte(size3>>8) != s.Header.Size[1] || byte(size3>>16) != s.Header.Size[2] || sb[3] != byte(s.Header.Type) {
+		return "FAIL strict section-fields-not-from-node-bytes"
+	}
+	if hl == 8 {
+		if e, _ := rd(sb, 4, 4); e != uint64(s.Header.ExtendedSize) {
+			return "FAIL strict section-extended-size-not-from-node-bytes"
+		}
+	} else if known && size3 != uint64(s.Header.ExtendedSize) {
+		return "FAIL strict section-size-not-from-node-bytes"
+	} else if !known && uint64(s.Header.ExtendedSize) > size3 {
+		return "FAIL strict section-size-exceeds-size-field"
+	}
+	if s.Header.Type == uefi.SectionTypeGUIDDefined && s.TypeSpecific != nil {
+		gd := s.TypeSpecific.Header.(*uefi.SectionGUIDDefined)
+		do, ok1 := rd(sb, hl+16, 2)
+		at, ok2 := rd(sb, hl+18, 2)
+		if !ok1 || !ok2 || !bytes.Equal(sb[hl:hl+16], gd.GUID[:]) || do != uint64(gd.DataOffset) || at != uint64(gd.Attributes) ||
+			int(gd.DataOffset) > len(sb) {
+			return "FAIL strict section-gd-fields-not-from-node-bytes"
+		}
+	}
+	// children: sections of the decoded payload (its bytes are not kept by the implementation, so
+	// only their mutual layout can be checked), or the nested volume of an FV-image section
+	var kids []*uefi.Section
+	for _, e := range s.Encapsulated {
+		switch k := e.Value.(type) {
+		case *uefi.Section:
+			kids = append(kids, k)
+		case *uefi.FirmwareVolume:
+			if s.Header.Type != uefi.SectionTypeFirmwareVolumeImage {
+				return "FAIL strict volume-under-non-fv-image-section"
+			}
+			vb := k.Buf()
+			if hl+len(vb) > len(sb) || !bytes.Equal(sb[hl:hl+len(vb)], vb) {
+				return "FAIL strict nested-fv-not-section-body"
+			}
+			if r := strictFV(k); r != "" {
+				return r
+			}
+		}
+	}
+	return strictSections(nil, 0, kids)
+}
+
+// sections at consecutive 4-aligned offsets from off; parent == nil: layout only
+func strictSections(parent []byte, off uint64, secs []*uefi.Section) string {
+	prevHdrEnd := uint64(0)
+	for i, s := range secs {
+		off = (off + 3) &^ 3
+		sb := s.Buf()
+		if parent != nil {
+			if off+uint64(len(sb)) > uint64(len(parent)) {
+				return "FAIL strict section-outside-parent"
+			}
+			if !bytes.Equal(parent[off:off+uint64(len(sb))], sb) {
+				return "FAIL strict section-bytes-differ"
+			}
+		}
+		if i > 0 && off < prevHdrEnd {
+			return fmt.Sprintf("FAIL strict section-starts-inside-previous-header off=%#x prev-header-end=%#x", off, prevHdrEnd)
+		}
+		if len(sb) == 0 {
+			return "FAIL strict zero-length-section"
+		}
+		if r := strictSection(s); r != "" {
+			return r
+		}
+		prevHdrEnd = off + uint64(secHdrLen(s))
+		off += uint64(len(sb))
+	}
+	return ""
+}
+
+func strictKnown(s *uefi.Section) bool {
+	switch s.Header.Type {
+	case uefi.SectionTypeAll, uefi.SectionTypeCompression, uefi.SectionTypeGUIDDefined, uefi.SectionTypeDisposable,
+		uefi.SectionTypePE32, uefi.SectionTypePIC, uefi.SectionTypeTE, uefi.SectionTypeDXEDepEx, uefi.SectionTypeVersion,
+		uefi.SectionTypeUserInterface, uefi.SectionTypeCompatibility16, uefi.SectionTypeFirmwareVolumeImage,
+		uefi.SectionTypeFreeformSubtypeGUID, uefi.SectionTypeRaw, uefi.SectionTypePEIDepEx, uefi.SectionMMDepEx:
+		return true
+	}
+	return false
+}
+
+func strictFile(f *uefi.File) string {
+	fb := f.Buf()
+	hl := 24
+	if f.Header.Size == [3]uint8{0xFF, 0xFF, 0xFF} {
+		hl = 32
+	}
+	if uint64(len(fb)) != f.Header.ExtendedSize {
+		return "FAIL strict file-buf-length"
+	}
+	if uint64(hl) != f.DataOffset {
+		return "FAIL strict file-data-offset"
+	}
+	if len(fb) < hl {
+		return fmt.Sprintf("FAIL strict file-shorter-than-header size=%d header=%d", len(fb), hl)
+	}
+	if !bytes.Equal(fb[:16], f.Header.GUID[:]) || fb[16] != f.Header.Checksum.Header || fb[17] != f.Header.Checksum.File ||
+		fb[18] != byte(f.Header.Type) || fb[19] != byte(f.Header.Attributes) || !bytes.Equal(fb[20:23], f.Header.Size[:]) ||
+		fb[23] != byte(f.Header.State) {
+		return "FAIL strict file-fields-not-from-node-bytes"
+	}
+	if hl == 32 {
+		if e, _ := rd(fb, 24, 8); e != f.Header.ExtendedSize {
+			return "FAIL strict file-extended-size-not-from-node-bytes"
+		}
+	} else if e, _ := rd(fb, 20, 3); e != f.Header.ExtendedSize {
+		return "FAIL strict file-size-not-from-node-bytes"
+	}
+	return strictSections(fb, f.DataOffset, f.Sections)
+}
+
+func strictFV(fv *uefi.FirmwareVolume) string {
+	vb := fv.Buf()
+	if uint64(len(vb)) != fv.Length || len(vb) < 64 {
+		return "FAIL strict fv-buf-length"
+	}
+	l, _ := rd(vb, 32, 8)
+	at, _ := rd(vb, 44, 4)
+	hlen, _ := rd(vb, 48, 2)
+	if l != fv.Length || at != uint64(fv.Attributes) || hlen != uint64(fv.HeaderLen) || !bytes.Equal(vb[16:32], fv.FileSystemGUID[:]) {
+		return "FAIL strict fv-fields-not-from-node-bytes"
+	}
+	off := fv.DataOffset
+	prevHdrEnd := uint64(0)
+	for i, f := range fv.Files {
+		off = (off + 7) &^ 7
+		fb := f.Buf()
+		if off+uint64(len(fb)) > uint64(len(vb)) {
+			return "FAIL strict file-outside-volume"
+		}
+		if !bytes.Equal(vb[off:off+uint64(len(fb))], fb) {
+			return "FAIL strict file-bytes-differ"
+		}
+		if i > 0 && off < prevHdrEnd {
+			return fmt.Sprintf("FAIL strict file-starts-inside-previous-header off=%#x prev-header-end=%#x", off, prevHdrEnd)
+		}
+		if r := strictFile(f); r != "" {
+			return r
+		}
+		prevHdrEnd = off + f.DataOffset
+		off += uint64(len(fb))
+	}
+	return ""
+}
+
+func PPartitionStrict(args []string) string {
+	img := UnH(args[0])
+	uefiops.Reset()
+	root, err := uefi.Parse(img)
+	if err != nil {
+		return "skip"
+	}
+	br, ok := root.(*uefi.BIOSRegion)
+	if !ok {
+		return "skip"
+	}
+	off := uint64(0)
+	for _, e := range br.Elements {
+		switch n := e.Value.(type) {
+		case *uefi.BIOSPadding:
+			if n.Offset != off {
+				return "FAIL strict padding-offset"
+			}
+		case *uefi.FirmwareVolume:
+			if n.FVOffset != off {
+				return "FAIL strict fv-offset"
+			}
+			if r := strictFV(n); r != "" {
+				return r
+			}
+		default:
+			return "FAIL strict unexpected-element"
+		}
+		eb := e.Value.Buf()
+		if off+uint64(len(eb)) > uint64(len(img)) || !bytes.Equal(img[off:off+uint64(len(eb))], eb) {
+			return "FAIL strict element-bytes-differ"
+		}
+		off += uint64(len(eb))
+	}
+	if off != uint64(len(img)) {
+		return "FAIL strict elements-do-not-tile-region"
+	}
+	return "ok"
+}
 
 func gen(r *Rng, tier string, emit Emit) {
 	n := 150
@@ -22,6 +249,7 @@ func gen(r *Rng, tier string, emit Emit) {
 	}
 	for _, b := range uefigen.HistoricalCorpus(repo, maxCorpus) {
 		emit("P", "p_partition", H(b))
+		emit("P", "p_partition_strict", H(b))
 		if len(b) <= 6000 && len(b) > 0 {
 			emit("C", "parse", H(b))
 		}
@@ -35,6 +263,7 @@ func gen(r *Rng, tier string, emit Emit) {
 			continue
 		}
 		emit("P", "p_partition", H(img))
+		emit("P", "p_partition_strict", H(img))
 		emit("C", "parse", H(img))
 		// structure-aware mutants: most still parse
 		for k := 0; k < 12 && len(fields) > 0; k++ {
@@ -42,6 +271,7 @@ func gen(r *Rng, tier string, emit Emit) {
 			vs := uefigen.BoundaryValues(f)
 			m := uefigen.Mutate(img, f, vs[rr.Intn(len(vs))])
 			emit("P", "p_partition", H(m))
+			emit("P", "p_partition_strict", H(m))
 			emit("C", "parse", H(m))
 		}
 	}
@@ -49,5 +279,6 @@ func gen(r *Rng, tier string, emit Emit) {
 
 func main() {
 	uefiops.RegisterAll()
+	Register("p_partition_strict", PPartitionStrict)
 	Main(gen)
 }
